@@ -465,4 +465,6 @@ var StandingAssumptions = []string{
 	"callees without a contract: result unconstrained, heap havocked by the callee's transitive write summary; library functions are assumed not to write program-visible heap except the listed argument writers/callback takers",
 	"goroutines, channels, select are not modelled; floats are reals",
 	"termination is claimed only where a variant/measure obligation is listed",
+	"typed nil pointers are never stored in interface values (checked as nil:typed-nil-in-interface at producers inside swept functions, assumed at type assertions)",
+	"declared type invariants hold at call boundaries (assumed on entry for pointer parameters, re-proved at every exit of functions that write the type's fields)",
 }
